@@ -12,6 +12,9 @@ mod tests;
 use ff::Field;
 use CurveProjective;
 
+#[cfg(pairing_plus_verif)]
+pub use self::chain::{chain_p2m9div16, chain_pm3div4};
+
 /// Trait for mapping from base field element to curve point
 pub trait OSSWUMap: CurveProjective {
     /// Evaluate optimized simplified SWU map on supplied base field element
